@@ -1,2 +1,6 @@
 import NetqasmVerif.Model.Basic
 import NetqasmVerif.Model.Codec
+import NetqasmVerif.Model.Epr
+import NetqasmVerif.Model.EprReq
+import NetqasmVerif.Props.C11
+import NetqasmVerif.Props.C12
